@@ -119,6 +119,8 @@ def eval_guard_value(n: ast.AST, binding):
             return a + b if isinstance(n.op, ast.Add) else a - b
         except TypeError:
             raise NotEvaluable('comparison of incomparable values')
+    if isinstance(n, ast.IfExp):
+        return val(n.body) if eval_guard(n.test, binding) else val(n.orelse)
     if isinstance(n, ast.Name) and n.id in ('int', 'float', 'str', 'bool', 'list', 'tuple'):
         return {'int': int, 'float': float, 'str': str, 'bool': bool, 'list': list, 'tuple': tuple}[n.id]
     if isinstance(n, ast.UnaryOp) and isinstance(n.op, ast.USub):
